@@ -187,6 +187,23 @@ def check_container(run, what, obj, cs, freq, amp, scale, ascale, _):
     if np.isnan(pf).any():
         run.violation(f"nan-in-peak_frequencies:{what}", "peak_frequencies contains NaN after a range update",
                       dict(kind="mask"))
+    # ... also when the masks are afterwards overwritten without looking at the peaks (what the time-domain rejections
+    # do with hvsr=...): the resonance statistics are taken over exactly the windows that HAVE a peak
+    if not any_peak or all(idx_of(freq, float(f_)) > 0 for f_ in frq):
+        return
+    import copy as _copy
+    o2 = _copy.deepcopy(obj)
+    o2.valid_window_boolean_mask = np.full(len(cs), True)
+    o2.valid_peak_boolean_mask = np.full(len(cs), True)
+    want = sorted(float(f_) for f_ in frq if not np.isnan(f_))
+    try:
+        got = sorted(float(x) for x in o2.peak_frequencies)
+        mf = float(o2.mean_fn_frequency("normal"))
+    except Exception as e:
+        got, mf = f"{type(e).__name__}: {e}", float("nan")
+    if got != want or not np.isclose(mf, np.mean(want), rtol=1e-12):
+        run.violation(f"nopeak-in-stats-after-mask-overwrite:{what}", f"range=({cs[0]['lo']},{cs[0]['hi']}): windows without a peak and both masks set True: "
+                      f"peak_frequencies = {got}, mean fn = {mf}; the windows that have a peak are {want}", dict(kind="mask"))
 
 
 if __name__ == "__main__":
